@@ -99,6 +99,11 @@ def install_gate_monitors(lw):
                 _seen.add(key)
                 try:
                     problems = check_gate(name, args, self)
+                    p2 = circmon.scribble_probe(self)
+                    if p2:
+                        problems.append("alias: " + p2)
+                    problems += ["second_use: " + p.split(": ", 1)[-1] for p in check_gate(name, args, self)
+                                 if not problems]
                 except Exception as e:  # noqa: BLE001
                     circmon.STATS["gate_monitor_error:" + type(e).__name__] += 1
                     return
